@@ -94,9 +94,11 @@ class _Marshaller:
 
     dispatch = {}
 
-    def __init__(self, writefunc, python_version=None):
+    def __init__(self, writefunc, python_version=None, has_posonlyargcount=True):
         self._write = writefunc
         self.python_version = python_version
+        # False for the 3.8 pre-release magics whose code objects do not store it
+        self.has_posonlyargcount = has_posonlyargcount
 
     def dump(self, x):
         if (
@@ -384,7 +386,7 @@ class _Marshaller:
             )
         self._write(TYPE_CODE)
         self.w_long(x.co_argcount)
-        if hasattr(x, "co_posonlyargcount"):
+        if hasattr(x, "co_posonlyargcount") and self.has_posonlyargcount:
             self.w_long(x.co_posonlyargcount)
         self.w_long(x.co_kwonlyargcount)
         self.w_long(x.co_nlocals)
@@ -1084,10 +1086,16 @@ def load(f, python_version=None):
 
 
 @builtinify
-def dumps(x, version=version, python_version=PYTHON_VERSION_TRIPLE):
+def dumps(
+    x, version=version, python_version=PYTHON_VERSION_TRIPLE, has_posonlyargcount=True
+):
     # XXX 'version' is ignored, we always dump in a version-0-compatible format
     buffer = []
-    m = _Marshaller(buffer.append, python_version=python_version)
+    m = _Marshaller(
+        buffer.append,
+        python_version=python_version,
+        has_posonlyargcount=has_posonlyargcount,
+    )
     m.dump(x)
     if python_version:
         is_python3 = python_version >= (3, 0)
